@@ -1,4 +1,5 @@
 import JobShopProofs.Properties.C02
+import JobShopProofs.Lemmas.Filters
 /-!
 # C05 — state queries agree with the schedule, whatever was asked before
 
@@ -144,29 +145,6 @@ theorem C05_partition_sched (I : Instance) (s : State) (r : OpRef) :
       · right; exact ⟨h, by omega⟩
     · rintro (h | h) <;> exact h.1
   · rintro ⟨h1, h2⟩; omega
-
-theorem mem_takeWhile_desc (t : Int) : ∀ (r : List SOp), r.Pairwise (fun a b => b.end_ ≤ a.start) →
-    (∀ x ∈ r, 0 ≤ x.dur) → ∀ x, (x ∈ r.takeWhile (fun x => !decide (x.end_ ≤ t)) ↔ x ∈ r ∧ t < x.end_)
-  | [], _, _, x => by simp
-  | a :: r, hp, hd, x => by
-    rw [List.pairwise_cons] at hp
-    have ih := mem_takeWhile_desc t r hp.2 (fun y hy => hd y (List.mem_cons_of_mem _ hy)) x
-    by_cases ha : a.end_ ≤ t
-    · simp only [List.takeWhile_cons, ha, decide_true, Bool.not_true, Bool.false_eq_true, ↓reduceIte,
-        List.not_mem_nil, List.mem_cons, false_iff, not_and, Int.not_lt]
-      rintro (rfl | hx)
-      · exact ha
-      · have h1 := hp.1 x hx
-        have h2 := hd a (by simp)
-        simp only [SOp.end_] at *; omega
-    · simp only [List.takeWhile_cons, ha, decide_false, Bool.not_false, ↓reduceIte, List.mem_cons, ih]
-      constructor
-      · rintro (rfl | h)
-        · exact ⟨Or.inl rfl, by omega⟩
-        · exact ⟨Or.inr h.1, h.2⟩
-      · rintro ⟨rfl | h, h2⟩
-        · left; rfl
-        · right; exact ⟨h, h2⟩
 
 /-- **C05 (ongoing).** In every reachable state the ongoing operations are exactly the scheduled operations
 that end after the current time (so the backwards scan with `break` loses nothing), and completed
